@@ -232,6 +232,11 @@ func (e *Exec) intrinsic(fn *ssa.Function, args []value) value {
 		// FindStringSubmatch calls on re return result.
 		e.matchTable[args[0].(*value)] = args[1]
 		return nil
+	case "vSetMatchOn":
+		// vSetMatchOn(re, subject, result): FindStringSubmatch(subject) on re returns result
+		re := args[0].(*value)
+		e.matchOn[re] = append(e.matchOn[re], matchEntry{subject: args[1], result: args[2]})
+		return nil
 	case "vIsNaN":
 		f := args[0].(Float)
 		if f.T == nil {
